@@ -154,7 +154,22 @@ pub fn audit(rt: &RuntimeData, check_quarantine_content: bool, settled: bool) ->
                 // A3: keys vector and hash part agree
                 let keys = t.keys();
                 let map: &cao_lang::collections::hash_map::CaoHashMap<Value, Value, _> = t;
-                if keys.len() != map.len() {
+                // (only for tables whose keys are all of the kinds that keep their hash and equal themselves: nil, integers,
+                // non-NaN reals, strings. A NaN key can never be found again and a table used as key changes its hash when
+                // it is modified - both are documented exceptions, and pop / remove then legitimately leave the entry behind)
+                let stable = |k: &Value| match k {
+                    Value::Nil | Value::Integer(_) => true,
+                    Value::Real(r) => !r.is_nan(),
+                    Value::Object(o) => matches!(unsafe { &o.as_ref().body }, CaoLangObjectBody::String(_)),
+                };
+                let judged = keys.iter().all(|k| match k {
+                    Value::Object(o) => !alloc.verif.is_quarantined(o.as_ptr() as usize) && stable(k),
+                    other => stable(other),
+                }) && map.iter().all(|(k, _)| match k {
+                    Value::Object(o) => !alloc.verif.is_quarantined(o.as_ptr() as usize) && stable(k),
+                    other => stable(other),
+                });
+                if judged && keys.len() != map.len() {
                     return Err(AuditFailure {
                         invariant: "A3",
                         holder: "table".into(),
